@@ -408,6 +408,19 @@ func (t *fnTrans) wrap(x Term, ty types.Type) Term {
 	return fmt.Sprintf("(%s %s)", wrapFn(ty), x)
 }
 
+// strOrder: comparison of two strings through the uninterpreted strict total order str_lt.
+func strOrder(op string, a, b Term) Term {
+	switch op {
+	case "<":
+		return fmt.Sprintf("(str_lt %s %s)", a, b)
+	case ">":
+		return fmt.Sprintf("(str_lt %s %s)", b, a)
+	case "<=":
+		return fmt.Sprintf("(not (str_lt %s %s))", b, a)
+	}
+	return fmt.Sprintf("(not (str_lt %s %s))", a, b)
+}
+
 func pow2(k uint64) string {
 	return constant.Shift(constant.MakeInt64(1), token.SHL, uint(k)).ExactString()
 }
@@ -429,6 +442,17 @@ func (t *fnTrans) binop(op token.Token, x, y Term, xt, yt types.Type, yConst con
 			return fmt.Sprintf("(= %s %s)", x, y)
 		case token.NEQ:
 			return fmt.Sprintf("(not (= %s %s))", x, y)
+		}
+		// lexicographic order of strings: an uninterpreted strict total order (axioms added to the VCs that use it)
+		switch op {
+		case token.LSS:
+			return strOrder("<", x, y)
+		case token.LEQ:
+			return strOrder("<=", x, y)
+		case token.GTR:
+			return strOrder(">", x, y)
+		case token.GEQ:
+			return strOrder(">=", x, y)
 		}
 		r := t.fresh("strcmp", "Bool")
 		return r
